@@ -159,13 +159,14 @@ type vc17ErrAmbiguous struct{ what string }
 
 func (e *vc17ErrAmbiguous) Error() string { return e.what }
 
-func vc17NewHandler(mainConfs, fbConfs []*UpstreamPlainConfig, backoff time.Duration, tmpl string, seed uint64) (h *Handler) {
+func vc17NewHandler(mainConfs, fbConfs []*UpstreamPlainConfig, backoff, initDur time.Duration, tmpl string, seed uint64) (h *Handler) {
 	h = NewHandler(&HandlerConfig{
 		Logger:                     slogutil.NewDiscardLogger(),
 		HealthcheckDomainTmpl:      tmpl,
 		UpstreamsAddresses:         mainConfs,
 		FallbackAddresses:          fbConfs,
 		HealthcheckBackoffDuration: backoff,
+		HealthcheckInitDuration:    initDur,
 	})
 	// The handler's own selection randomness is made a function of the drawn
 	// seed so that every history replays.
@@ -179,12 +180,19 @@ func vc17NewHandler(mainConfs, fbConfs []*UpstreamPlainConfig, backoff time.Dura
 // were in the slots; it is false when the nodes wrap those very clients.
 func vc17Install(h *Handler, mains, fbs []vc17Node, closeOld bool) {
 	for i, m := range mains {
+		old := h.upstreams[i].upstream
 		if closeOld {
-			_ = h.upstreams[i].upstream.Close()
+			_ = old.Close()
 		}
 
 		h.upstreams[i].upstream = m
-		h.activeUpstreams[i] = m
+		// The eligible set may already have been reduced by the initial
+		// health check: replace by identity, not by position.
+		for j, a := range h.activeUpstreams {
+			if a == old {
+				h.activeUpstreams[j] = m
+			}
+		}
 	}
 
 	for i, f := range fbs {
@@ -264,6 +272,10 @@ func (e *vc17Env) describe() string {
 		fmt.Fprintf(&b, " %s{cat=%s}", f.vc17Name(), f.vc17Cat())
 	}
 
+	if e.h == nil {
+		return b.String()
+	}
+
 	b.WriteString("\nreal: active=[")
 	for _, u := range e.h.activeUpstreams {
 		b.WriteString(u.String() + " ")
@@ -295,10 +307,19 @@ func (e *vc17Env) logString() string {
 // reference, and compares.
 func (e *vc17Env) refresh(ctx context.Context, fail vc17Fail) (err error) {
 	e.hist.WriteString("R ")
+
+	return e.refreshRun(fail, func() { _ = e.h.Refresh(ctx) }, true)
+}
+
+// refreshRun runs one health-check round of the real code through run and the
+// same round on the reference, and compares.  run may be the handler's
+// construction with its initial health check, in which case it sets e.h and
+// the calls are not recorded (observable is false).
+func (e *vc17Env) refreshRun(fail vc17Fail, run func(), observable bool) (err error) {
 	e.log = e.log[:0]
 
 	t2 := time.Now()
-	_ = e.h.Refresh(ctx)
+	run()
 	t3 := time.Now()
 
 	probes := make([]int, len(e.mains))
@@ -385,7 +406,7 @@ func (e *vc17Env) refresh(ctx context.Context, fail vc17Fail) (err error) {
 			continue
 		}
 
-		if probes[i] == 0 {
+		if observable && probes[i] == 0 {
 			fail("main %s is not in backoff but was not probed by the health-check round\n%s", m.vc17Name(), e.describe())
 		}
 
